@@ -23,7 +23,7 @@ var c07Variants = []string{"no-metadata", "other-release", "other-namespace", "l
 func c07Preexisting(r world.Res, v string) map[string]interface{} {
 	o := normObj(world.Res{Kind: r.Kind, Name: r.Name, Variant: 7}.Object()) // content differs from anything a chart generates
 	md := o["metadata"].(map[string]interface{})
-	md["namespace"] = "default"
+	md["namespace"] = r.Namespace()
 	lb := map[string]interface{}{}
 	an := map[string]interface{}{}
 	switch v {
@@ -322,6 +322,9 @@ func c07Prop(t *rapid.T) {
 		// place pre-existing objects for pool resources that do not exist yet (biased towards what a failed upgrade named)
 		for n := rapid.IntRange(0, 3).Draw(t, "nPlace"); n > 0; n-- {
 			r := wgPool[rapid.IntRange(0, len(wgPool)-1).Draw(t, "placeRes")]
+			if rapid.IntRange(0, 4).Draw(t, "placeInOtherNamespace") == 0 {
+				r.NS = "other"
+			}
 			if lastFailedChart != nil && rapid.Bool().Draw(t, "placeFromFailed") {
 				r = lastFailedChart.Resources[rapid.IntRange(0, len(lastFailedChart.Resources)-1).Draw(t, "placeFailedRes")]
 				r.Variant, r.Policy = 0, ""
@@ -348,6 +351,13 @@ func c07Prop(t *rapid.T) {
 		}
 		if op.Kind == "install" || op.Kind == "upgrade" {
 			op.Chart = world.ChartSpec{Version: i + 1, Resources: genResources(t, 4, nil)}
+			// a template may name a namespace of its own: the same kind and name elsewhere is a different object
+			for k := range op.Chart.Resources {
+				if rapid.IntRange(0, 5).Draw(t, "explicitNamespace") == 0 {
+					op.Chart.Resources[k].NS = "other"
+					lbl["resource-in-another-namespace"] = true
+				}
+			}
 			if !op.DisableHooks {
 				op.Chart.Hooks = genSimpleHooks(t)
 			}
